@@ -188,11 +188,96 @@ def step_equality_case(Dy, wsign, timeout=900):
     return Case(cid, PROP, cfg, declare, fn, claims, timeout=timeout)
 
 
+def _link_value(ops, link, h):
+    if link == "exp":
+        return ops.exp(h)
+    if link == "cosh":
+        return ops.c(Fraction(1, 2)) * (ops.exp(h) + ops.exp(-h)) - ops.one()
+    raise ValueError(link)
+
+
+def _link_deriv(ops, link, h):
+    if link == "exp":
+        return ops.exp(h)
+    if link == "cosh":
+        return ops.c(Fraction(1, 2)) * (ops.exp(h) - ops.exp(-h))
+    raise ValueError(link)
+
+
+def _declare_zero_weight(b, Dx, Dy, Dk, signs, with_dir):
+    b.free("M", (1, Dy, Dx)); b.free("bv", (1, Dy)); b.free("A", (1, Dy, Dy))
+    b.spd("Sx", 1, Dx); b.free("mx", (1, Dx)); b.free("y", (1, Dy))
+    b.pos("c", (Dk,))
+    for k in range(Dk):
+        # T_k = exp(c_k / 2): cosh / tanh / exp of the offset and of omega = |offset| become rational in T_k
+        b.exp_alias(f"c_{k}", f"T_{k}", Fraction(1, 2))
+    b.derived("w0", (Dk,), lambda I, ops: np.array([I["c"][k] * ops.c(signs[k]) for k in range(Dk)], dtype=object))
+    if with_dir:
+        b.free("wdir", (Dk, Dx))
+
+
+def zero_weight_case(link, Dx, Dy, Dk, signs, timeout=900):
+    """C17, 'exactly zero gap at zero weights' (exp, cosh-1): with the input weights of all noise units equal to 0
+    the value of integrate_log_conditional_y IS the expected log-density of the (then homoscedastic) model."""
+    sg = "".join("p" if s > 0 else "m" for s in signs)
+    cid = f"C17/zero-weight-exact/{link}/Dx{Dx}Dy{Dy}Da{Dy}Dk{Dk}/w0{sg}"
+    cfg = dict(clause="bound is exact at zero input weights", link=link, Dx=Dx, Dy=Dy, Da=Dy, Dk=Dk, offset_signs=list(signs))
+
+    def declare(b):
+        _declare_zero_weight(b, Dx, Dy, Dk, signs, False)
+
+    def fn(**A):
+        import jax.numpy as jnp
+        factor, measure, pdf, conditional = gt()
+        W = jnp.concatenate([A["w0"][:, None], jnp.zeros((Dk, Dx))], axis=1)
+        c = make_het(link, {"M": A["M"], "bv": A["bv"], "A": A["A"], "W": W})
+        px = pdf.GaussianPDF(Sigma=A["Sx"], mu=A["mx"])
+        return {"val": c.integrate_log_conditional_y(px, y=A["y"])}
+
+    def claims(I, O, ops):
+        return [("zero weights: integrate_log_conditional_y(p_x, y) = E_p(x)[ln N(y; Mx+b, AA' + A_k diag(link(w0)) A_k')]",
+                 O["val"], _homoscedastic_expectation(I, ops, link, Dx, Dy, Dk))]
+
+    return Case(cid, PROP, cfg, declare, fn, claims, timeout=timeout)
+
+
+def _const_cov(I, ops, link, Dy, Dk):
+    A_ = I["A"][0]
+    Sg = spec.mm(A_, A_.T)
+    for k in range(Dk):
+        d = _link_value(ops, link, I["w0"][k])
+        for i in range(Dy):
+            for j in range(Dy):
+                Sg[i, j] = Sg[i, j] + A_[i, k] * d * A_[j, k]
+    return Sg
+
+
+def _residual_polys(I, ops, Dx, Dy):
+    M, bb, y = I["M"][0], I["bv"][0], I["y"][0]
+    return [spec.p_affine(ops, [-M[i, j] for j in range(Dx)], y[i] - bb[i]) for i in range(Dy)]
+
+
+def _homoscedastic_expectation(I, ops, link, Dx, Dy, Dk):
+    Sg = _const_cov(I, ops, link, Dy, Dk)
+    Li, d = spec.inv(ops, Sg)
+    mom = spec.Moments(ops, I["mx"][0], I["Sx"][0])
+    res = _residual_polys(I, ops, Dx, Dy)
+    q = ops.zero()
+    for i in range(Dy):
+        for j in range(Dy):
+            q = q + Li[i, j] * mom.expect(spec.p_mul(res[i], res[j]))
+    return ops.c(Fraction(-1, 2)) * q - ops.c(Fraction(1, 2)) * ops.lnabs(d) - ops.c(Fraction(Dy, 2)) * ops.ln2pi()
+
+
 def cases(tier, seed=0):
     out = []
     for Dy in (1, 2):
         for wsign in (1, -1):
             out.append(step_equality_case(Dy, wsign))
+    for link in ("exp", "cosh"):
+        for (Dx, Dy, Dk) in ((1, 1, 1), (2, 2, 1), (1, 2, 2)):
+            for signs in itertools.product((1, -1), repeat=Dk):
+                out.append(zero_weight_case(link, Dx, Dy, Dk, list(signs)))
     shapes = [(1, 1, 1, 1), (2, 2, 2, 1), (2, 2, 2, 2), (1, 1, 2, 1), (1, 1, 2, 2), (2, 2, 3, 2)]   # (Dx, Dy, Da, Dk)
     for link in ("exp", "cosh"):
         for (Dx, Dy, Da, Dk) in shapes:
